@@ -22,7 +22,7 @@ RULE = ('Blocks of the shipped atomistic force fields (charmm, amber, gromos; am
         'hydrogens only, pairwise swaps of same-element atoms); 1-3 atoms removed (leaves, interior, bonded pairs); 1-3 '
         'extra atoms attached (extra H, OXT-like O, foreign element); alone and inside 2-4 residue peptides with peptide '
         'bonds; terminal modifications requested through the modification attribute. Non-trivial = (scrambled or permuted) '
-        'and (missing or extra atoms). distinct = distinct (force field, block, presentation) hashes.')
+        'and (missing or extra atoms). distinct = distinct (force field, block, presentation) hashes. Also: names borrowed from an isosteric neighbour block (repaired together, shared symmetry cache); names following an element-violating automorphism of the uncoloured residue graph (mirror) or swapped across elements; all present atoms carrying one name; only one to three atoms left.')
 ASSUMPTIONS = ['termination is not claimed: the largest-common-subgraph search is exponential on some scrambled residues; a '
                'case that exceeds its watchdog is inconclusive',
                'input atoms carry a correct element; residue names are correct (documented requirements of RepairGraph)',
